@@ -888,7 +888,14 @@ pub fn worker(w: &mut WorkerCtx) {
     }
     let max_entries: usize = w.arg(0).parse().unwrap_or(2);
     let sb = Sandbox::new("c20");
-    let trees = enum_trees(&tree_space(max_entries));
+    let mut trees = enum_trees(&tree_space(max_entries));
+    let resolving = trees.len();
+    // second family: states with links that do not resolve to a non-link (dangling /zz, chains, cycles)
+    let mut sp2 = tree_space(max_entries.saturating_sub(1).max(2));
+    sp2.links = LinkDomain::Any;
+    sp2.extra_targets = vec!["/zz".to_string()];
+    trees.extend(enum_trees(&sp2).into_iter().filter(|t| !t.links_resolve()));
+    w.count("stdfs_trees_with_unresolving_links", if w.shard == 0 { (trees.len() - resolving) as u64 } else { 0 });
     let mut st = Stats::default();
     let mut mats = 0u64;
     let mut ntrees = 0u64;
@@ -1111,7 +1118,7 @@ pub fn run(ctx: &Ctx) -> i32 {
         eprintln!("machinery: {} sandbox states could not be materialised / observed ({} trees) - the Stdfs half needs a writable tmpfs", g.c("stdfs_machinery_failures"), g.c("stdfs_trees"));
         return 2;
     }
-    println!("  stdfs half: {} trees (<= {} entries, resolving links), {} macro runs, {} materialisations", g.c("stdfs_trees"), me, g.c("stdfs_runs"), g.c("stdfs_materialisations"));
+    println!("  stdfs half: {} trees (<= {} entries; resolving links, plus dangling / chained / cyclic links at one entry fewer), {} macro runs, {} materialisations", g.c("stdfs_trees"), me, g.c("stdfs_runs"), g.c("stdfs_materialisations"));
 
     let mut matrix: BTreeMap<String, u64> = mem.matrix.clone();
     for (k, v) in &g.counters {
